@@ -107,6 +107,7 @@ macro_rules! h {
         #[kani::stub(core::sync::atomic::atomic_load, load_stub)]
         #[kani::stub(core::sync::atomic::fence, fence_stub)]
         fn $name() {
+            crate::ghost::arm();
             $body
         }
     };
